@@ -228,7 +228,8 @@ def mk_app_call(file_, iface, cls):
         defs=dict(DEFS, **{"resolved_rp()": "abspath(path_join(self.directory, join_segments(rp))) + ('/' if rp.endswith('/') else '')"}),
         ufuncs=dict(UF, S_ISREG=([Int], Bool), S_ISDIR=([Int], Bool)),
         stubs={"request_path": lambda ev, a, k, n: ev.st.ghost["rp"], "stat.S_ISDIR": _s_isdir, "URL": _url_stub,
-               "RedirectResponse": _redirect_stub},
+               "RedirectResponse": _redirect_stub,
+               "quote": lambda ev, a, k, n: VStr(ufunc("quote_path", S, S)(a[0].t))},      # (A-quote-1; the target's text is C13)
         stub_methods={(resp + ":Response", "__call__"): _served, (resp + ":FileResponse", "__call__"): _served,
                       ("URL", "replace"): _url_replace},
         ghost_modifies=["fs", "sv", "fx"], frame_check=False, invariants=inv,
